@@ -4,7 +4,7 @@ from props import c04, c05
 
 TRUSTED = []
 ASSUMPTIONS = ['responses are those of the C04 and C05 campaigns plus a stream over every status class']
-WITH_MODEL = False
+WITH_MODEL = True
 
 def judge(res, results):
     for c, r, il, ml in results:
